@@ -927,6 +927,11 @@ def _wrapneg(v, n):
         if known_true(mk_bool(v.z >= 0)):
             return v
         return mk_int(z3.If(v.z < 0, v.z + zint(n), v.z))
+    if isinstance(v, MaskedOr):
+        v = v._int()
+        return _wrapneg(v, n)
+    if not isinstance(v, int) or isinstance(v, bool):
+        raise Unsupported(f'an index array holds {type(v).__name__} entries, not integers')
     return v + n if v < 0 else v
 
 
